@@ -584,17 +584,16 @@ func (s *Sim) runTask(t *Task) {
 }
 
 func (s *Sim) candidates() []*Task {
+	// runnable tasks and blocked tasks whose poll may succeed now ("dirty"): a
+	// spinning task that is always runnable must not keep the others from
+	// being polled
 	var c []*Task
 	for _, t := range s.tasks {
-		if t.state == stRunnable && !s.stalled[t.Inc] {
-			c = append(c, t)
+		if s.stalled[t.Inc] {
+			continue
 		}
-	}
-	if len(c) == 0 {
-		for _, t := range s.tasks {
-			if t.state == stBlocked && t.dirty && !s.stalled[t.Inc] {
-				c = append(c, t)
-			}
+		if t.state == stRunnable || (t.state == stBlocked && t.dirty) {
+			c = append(c, t)
 		}
 	}
 	return c
@@ -696,6 +695,7 @@ func (s *Sim) step() bool {
 	s.forced = nil
 	s.runTask(t)
 	if t.forceSwitch {
+		s.instantSteps-- // a statement-level pre-emption is computation, not spinning
 		t.forceSwitch = false
 		s.Preempts++
 		if s.Strat == StratPCT {
